@@ -1,6 +1,7 @@
 (* Props/C11.v — the result map, engine half: after a call the map holds exactly the names of
-   the executed rules that reported a result; nothing of a previous call survives; a call never
-   panics or hangs. Statements only; the proofs are in Engine/Sound.v and Engine/Meaning.v. *)
+   the executed rules that reported a result, each bound to the value that rule returned (nil
+   for a bare return); nothing of a previous call survives; a call never panics or hangs.
+   Statements only; the proofs are in Engine/Sound.v and Engine/Meaning.v. *)
 From Coq Require Import String List ZArith Bool Permutation.
 From GV Require Import Engine.IR Engine.Hand Engine.Spec Engine.Trace Engine.Sound Engine.TraceFacts Engine.Meaning.
 Import ListNotations.
@@ -9,8 +10,8 @@ Import ListNotations.
        executed rules that reported the returned-flag *)
 Theorem C11_engine_result_exact : forall e c, exists m,
   o_map (run_prog (hand e) c) = Some m /\
-  (forall n, In n m <-> exists r, In r (ran e c) /\ eret r = true /\ en r = n) /\
-  NoDup m.
+  (forall n, In n (map fst m) <-> exists r, In r (ran e c) /\ eret r = true /\ en r = n) /\
+  NoDup (map fst m).
 Proof. exact result_exact. Qed.
 Print Assumptions C11_engine_result_exact.
 
@@ -26,3 +27,36 @@ Theorem C11_engine_never_crashes : forall e c,
   o_stat (run_prog (hand e) c) = RetNil \/ o_stat (run_prog (hand e) c) = RetErr.
 Proof. exact hand_never_crashes. Qed.
 Print Assumptions C11_engine_never_crashes.
+
+(* 26. the VALUES: when the configured rule names are pairwise distinct, the map binds exactly the
+       rules that ran and returned, each to ITS value (None = nil: the value of a bare return).
+       A selection list that names a rule twice runs it twice — the same rule, the same value — so
+       distinct names in the rule set are enough for every entry point. *)
+Theorem C11_engine_result_values : forall e c, NoDup (map en (c_rules c)) -> exists m,
+  o_map (run_prog (hand e) c) = Some m /\
+  forall n v, In (n, v) m <-> exists r, In r (ran e c) /\ eret r = true /\ en r = n /\ eval r = v.
+Proof. exact result_values. Qed.
+Print Assumptions C11_engine_result_values.
+
+(* 26a. the hypothesis that is actually used (and needed): two executed rules that both return and
+        share a name return the same value.  Without it the later store wins — rules [A := 1; A := 2]
+        leave A -> 2 although "A := 1" ran and returned — so the right-to-left direction fails. *)
+Theorem C11_engine_result_values_gen : forall e c, same_name_same_value (ran e c) -> exists m,
+  o_map (run_prog (hand e) c) = Some m /\
+  forall n v, In (n, v) m <-> exists r, In r (ran e c) /\ eret r = true /\ en r = n /\ eval r = v.
+Proof. exact result_values_gen. Qed.
+Print Assumptions C11_engine_result_values_gen.
+
+(* 26b. unconditionally, every binding of the map is the value of an executed rule that returned *)
+Theorem C11_engine_result_values_from : forall e c m n v,
+  o_map (run_prog (hand e) c) = Some m -> In (n, v) m ->
+  exists r, In r (ran e c) /\ eret r = true /\ en r = n /\ eval r = v.
+Proof. exact result_values_from. Qed.
+Print Assumptions C11_engine_result_values_from.
+
+(* 27. a rule that ran and ended in a bare [return] is in the map, bound to nil *)
+Corollary C11_bare_return_binds_nil : forall e c m r, NoDup (map en (c_rules c)) ->
+  o_map (run_prog (hand e) c) = Some m ->
+  In r (ran e c) -> eret r = true -> eval r = None -> In (en r, None) m.
+Proof. exact bare_return_binds_nil. Qed.
+Print Assumptions C11_bare_return_binds_nil.
